@@ -147,8 +147,9 @@ def extra_expressions(rng, n):
     names = ["int", "str", "None", "dict", "list[int]", "Foo", "m.Foo", "'Fwd'", "tuple[int, ...]", "set[str]"]
     out = ["Literal['a|b', 'x[y]'] | None", "Annotated[int | str, 'm|n']", "typing.Callable[[int | str], dict]",
            "typing.Callable[..., list | None]", "dict[str, list[int | None]] | None", "1 + 2", "f(x)", "a.b.c",
-           "Pattern | None", "tuple[int | str, ...]", "Foo[int | None, dict]", "x + y * 2", "int", "typing.Dict[str, int]"]
-    leaves = ["int", "str", "None", "dict", "list", "tuple", "set", "Foo", "m.Foo", "'F|wd'", "...", "Pattern"]
+           "Pattern | None", "tuple[int | str, ...]", "Literal['two  blanks', 'tab\\tbed'] | None", "Annotated[int | str, ' padded  meta ']",
+           "dict[str, Literal['a\\nb']] | None", "Literal['x   y']", "Foo[int | None, dict]", "x + y * 2", "int", "typing.Dict[str, int]"]
+    leaves = ["int", "str", "None", "dict", "list", "tuple", "set", "Foo", "m.Foo", "'F|wd'", "...", "Pattern", "'two  blanks'"]
     heads = ["list", "dict", "tuple", "set", "Foo", "Annotated", "typing.Callable", "typing.Optional", "typing.Union",
              "Literal", "typing.Dict", "m.Foo"]
 
